@@ -821,10 +821,15 @@ func makeMapArshaler(t reflect.Type) *arshaler {
 		once    sync.Once
 		keyFncs *arshaler
 		valFncs *arshaler
+
+		legacyStringKeyFncs *arshaler // only for a key type of a string kind with methods
 	)
 	init := func() {
 		keyFncs = lookupArshaler(t.Key())
 		valFncs = lookupArshaler(t.Elem())
+		if t.Key().Kind() == reflect.String && keyFncs.nonDefault {
+			legacyStringKeyFncs = makeStringArshaler(t.Key())
+		}
 	}
 	nillableLegacyKey := t.Key().Kind() == reflect.Pointer &&
 		implementsAny(t.Key(), textMarshalerType, textAppenderType)
@@ -880,6 +885,11 @@ func makeMapArshaler(t reflect.Type) *arshaler {
 			nonDefaultKey := keyFncs.nonDefault
 			marshalKey := keyFncs.marshal
 			marshalVal := valFncs.marshal
+			if legacyStringKeyFncs != nil && mo.Flags.Get(jsonflags.CallMethodsWithLegacySemantics) {
+				// For historical reasons, v1 wrote a map key of a string kind
+				// from the string itself and never called its marshal methods.
+				nonDefaultKey, marshalKey = false, legacyStringKeyFncs.marshal
+			}
 			if mo.Marshalers != nil {
 				var ok bool
 				marshalKey, ok = mo.Marshalers.(*Marshalers).lookup(marshalKey, t.Key())
